@@ -32,6 +32,8 @@ func verifC08Plan(prefix int) [][]int {
 		return [][]int{{rapid.VbInitError}, {rapid.VbExit}}
 	case 4:
 		return [][]int{{rapid.VbRespondExit}}
+	case 6:
+		return [][]int{{rapid.VbStall}}
 	default:
 		return [][]int{{rapid.VbExitEarly}, {rapid.VbStall}}
 	}
@@ -123,7 +125,11 @@ func verifC08(nExt int, settled bool) {
 			keys = append(keys, "extension-ext0", "supervisor/extension-ext0")
 		}
 	}
-	prefix := verifChoice(6, "prefix scenario")
+	nPrefix := 6
+	if nExt > 0 {
+		nPrefix = 7 // 6: timeout; the extension answers SHUTDOWN with an exit/error report and exits
+	}
+	prefix := verifChoice(nPrefix, "prefix scenario")
 	suffix := verifChoice(4, "suffix scenario")
 	sb, sp := verifC08SuffixPlan(suffix)
 
@@ -140,6 +146,9 @@ func verifC08(nExt int, settled bool) {
 	f := newVerifFull(nExt, subs, verifC08Plan(prefix), 3000)
 	if !settled {
 		f.w.SetLateExitPhase(1 + verifChoice(3, "when the late exit notification is handled"))
+	}
+	if prefix == 6 {
+		f.w.SetExtReportsOnShutdown(true)
 	}
 	o := f.invoke()
 	if o.err == nil {
@@ -171,6 +180,27 @@ func verifC08(nExt int, settled bool) {
 	}
 	f.w.SetPlanNext(sp)
 	f.w.SetLateExitPhase(0) // only notifications about the prefix's processes are late
+	if ids := f.w.ExtIDs(); settled && len(ids) > 0 {
+		// a request that still carries the identifier of the old generation's extension arrives
+		// while the suffix's first invocation is with its runtime: it is refused like an
+		// identifier nobody ever had, and changes nothing
+		old := ids[0]
+		gots := f.w.Count("", "got-invoke", "") + f.w.CountWhat("got-invoke")
+		_ = gots
+		base := f.w.CountWhat("got-invoke")
+		kind := verifChoice(2, "stale request")
+		verifSpawnEnv(func() {
+			verifWaitUntil(func() bool { return f.w.CountWhat("got-invoke") > base })
+			var st int
+			if kind == 0 {
+				st = f.w.StaleExtNext(old)
+			} else {
+				st = f.w.StaleExtExitError(old)
+			}
+			verifAssert(st == 403, "a request with an identifier of an earlier generation is refused (403) like an unknown one")
+			verifReach("stale-identifier")
+		})
+	}
 	obs := f.c08Suffix(sb, keys)
 	same := len(obs) == len(refObs)
 	diff := ""
